@@ -79,7 +79,7 @@ Proof. exact disconnect_call_leaves_nothing. Qed.
 (* a step never gives an existing call a handler, waiter or timer it did not have: calls cannot disturb each other's registrations *)
 Theorem C11_resources_only_shrink : forall c l c' o cid,
   OT c -> step c l = Some (c', o) -> (cid < next_cid c)%nat -> res c' cid -> res c cid.
-Proof. intros c l c' o cid HO E L H. destruct (step_R c l c' o HO E) as [Q1 _]. exact (Q_res c c' cid Q1 L H). Qed.
+Proof. intros c l c' o cid HO E L H. destruct (step_R c l c' o HO E) as [Q1 _ _ _]. exact (Q_res c c' cid Q1 L H). Qed.
 Theorem C11_call_handlers_typed : forall n e ka scr ls c os ty cid,
   run (init n e ka scr) ls = Some (c, os) -> In (ty, HCall cid) (handlers c) -> exists k, get_call c cid = Some k /\ In ty (c_types k).
 Proof. exact call_handlers_typed. Qed.
@@ -107,4 +107,22 @@ Example C11_nothing_after_close :
 Proof. vm_compute. reflexivity. Qed.
 Example C11_nothing_after_result :
   registered11 (connect11 ++ [call11; LData [DFrame (mkMsg T_PING_RESP true 0 0 NameEmpty false)]; LWake (TCall 1)]) = Some (false, false, false).
+Proof. vm_compute. reflexivity. Qed.
+
+(* "fails with a timeout error exactly at its timeout", over all runs: while a call's timer is armed, it is armed at exactly
+   (time the request was written) + (its time-out); the timer label is enabled from that instant on and not before, and time
+   cannot pass it (C11_time_respects_deadlines) *)
+Theorem C11_timeout_exactly_at_its_timeout : forall n e ka scr ls c os cid k,
+  run (init n e ka scr) ls = Some (c, os) -> get_call c cid = Some k -> c_timer k <> None ->
+  c_timer k = Some (c_sent_at k + c_timeout k) /\ c_sent_at k <= now c /\
+  (step c (LTimer (TkCall cid)) <> None <-> c_sent_at k + c_timeout k <= now c).
+Proof.
+  intros n e ka scr ls c os cid k E G T. destruct (c_timer k) as [d|] eqn:Ed; [|congruence].
+  pose proof G as G'. unfold get_call in G'. apply find_some in G'. destruct G' as [I _].
+  destruct (call_timers_exact n e ka scr ls c os k d E I Ed) as [H1 H2]. subst d.
+  split; [reflexivity|]. split; [exact H2|]. apply call_timer_due_iff; assumption.
+Qed.
+Example C11_timeout_example :
+  option_map (fun r => map c_timer (calls (fst r)))
+    (run (init false false 20480 []) (connect11 ++ [LAdvance 100; call11])) = Some [None; Some 1124].
 Proof. vm_compute. reflexivity. Qed.
